@@ -211,17 +211,33 @@ pub struct ScriptPort {
     pub line: Rc<RefCell<Line>>,
     pub timeout: Rc<RefCell<Duration>>,
     pub fault: Option<(CfgCall, serial_core::ErrorKind)>,
+    /// which occurrence (1-based) of the faulty call fails; 0 = every occurrence
+    pub fault_occurrence: usize,
+    pub seen: Rc<RefCell<[usize; 4]>>,
     pub log: Log,
 }
 
 impl ScriptPort {
     pub fn new(io: Rc<RefCell<ScriptIo>>, line: Line, timeout: Duration, fault: Option<(CfgCall, serial_core::ErrorKind)>) -> Self {
         let log = io.borrow().log.clone();
-        ScriptPort { io, line: Rc::new(RefCell::new(line)), timeout: Rc::new(RefCell::new(timeout)), fault, log }
+        ScriptPort { io, line: Rc::new(RefCell::new(line)), timeout: Rc::new(RefCell::new(timeout)), fault, fault_occurrence: 0, seen: Rc::new(RefCell::new([0; 4])), log }
     }
     fn fails(&self, c: CfgCall) -> Option<serial_core::ErrorKind> {
+        let idx = match c {
+            CfgCall::ReadSettings => 0,
+            CfgCall::SetBaudRate => 1,
+            CfgCall::WriteSettings => 2,
+            CfgCall::SetTimeout => 3,
+        };
+        let n = {
+            let mut seen = self.seen.borrow_mut();
+            if c != CfgCall::SetBaudRate {
+                seen[idx] += 1;
+            }
+            seen[idx]
+        };
         match self.fault {
-            Some((f, k)) if f == c => Some(k),
+            Some((f, k)) if f == c && (self.fault_occurrence == 0 || c == CfgCall::SetBaudRate || n == self.fault_occurrence) => Some(k),
             _ => None,
         }
     }
